@@ -326,7 +326,7 @@ def bloom_stream(ck, cases):
 def tok_stream(ck, bcases, splitbytes):
     """tokenizer tie: TokModel.tokens / TokModel.finder against the real SimpleTokenizer / SimpleTokenFinder on the strings
     of the bloom cases; the writer inserts the byte-level tokens (always for ASCII values)."""
-    vals, pairs, fixed = {}, {}, []
+    vals, pairs, fixed, uvals = {}, {}, [], {}
     writer = {"ascii_bytewise": 0, "ascii_other": 0, "nonascii_bytewise": 0, "nonascii_other": 0}
     for t in bcases:
         tk = t.get("tok")
@@ -341,6 +341,16 @@ def tok_stream(ck, bcases, splitbytes):
                 return None
             writer[("ascii_" if v["ascii"] else "nonascii_") + ("bytewise" if v["writerbytewise"] else "other")] += 1
             vals[json.dumps(v["v"])] = v["toks"]
+            if "utoks" in v:
+                if not v["urealok"]:
+                    ck.broken.append("tokenizer tie: the real SimpleUtf8Tokenizer does not yield the hashes of the UTF-8 aware tokens of "
+                                     "UtfTok.utokens for the value %s%s" % (v["v"], " (it panicked)" if v.get("upanic") else ""))
+                    return None
+                if not v["writerutf8"]:
+                    ck.broken.append("tokenizer tie: the filter data of BloomFilterWriter.GenBloomFilterData differs from the data of the UTF-8 "
+                                     "aware tokens for the value %s: C20_bloom_skip_sound_utf8 no longer describes the writer" % v["v"])
+                    return None
+                uvals[json.dumps(v["v"])] = v["utoks"]
         for q in tk["pairs"]:
             pairs[json.dumps([q["p"], q["v"]])] = q["m"]
         if t.get("bid") == 0 and not t.get("corpus"):
@@ -388,11 +398,31 @@ def tok_stream(ck, bcases, splitbytes):
             return None
         bad_v += [v0 + int(x) for x in re.findall(r"\d+", lists[0])]
         bad_p += [p0 + int(x) for x in re.findall(r"\d+", lists[1])]
+    # UTF-8 aware tokens
+    ul = mix(uvals.items(), lambda kv: all(x < 128 for x in json.loads(kv[0])), capv)
+    ufiles = []
+    for sh in range((len(ul) + 499) // 500):
+        us = ul[sh * 500:(sh + 1) * 500]
+        txt = ("From Coq Require Import List Bool Arith NArith. From OG Require Import C20.Corr.\nImport ListNotations.\nOpen Scope N_scope.\n"
+               "Definition R := Eval vm_compute in utok_results %s\n %s.\nPrint R.\n") % (
+            nl(splitbytes),
+            "(" + coq_list(["(%s, (%s : list (list N)))" % (nl(json.loads(k)), coq_list([nl(tk_) for tk_ in v])) for k, v in us]) + " : list (list N * list (list N)))")
+        ufiles.append(("utok%d" % sh, txt))
+    bad_u = []
+    for sh, (rc, o) in enumerate(ck.coq_eval_many(ufiles, timeout=600)):
+        m = re.search(r"R\s*=\s*\[([^\]]*)\]\s*:\s*list nat", o, re.S) if rc == 0 else None
+        if not m:
+            ck.broken.append("tokenizer tie (UTF-8): model evaluation failed: %s" % o[-300:])
+            return None
+        bad_u += [sh * 500 + int(x) for x in re.findall(r"\d+", m.group(1))]
+    if bad_u:
+        ck.broken.append("correspondence C20 tokenizer: UtfTok.utokens differs from the real SimpleUtf8Tokenizer's tokens for the value bytes %s" % ul[bad_u[0]][0])
     if bad_v:
         ck.broken.append("correspondence C20 tokenizer: TokModel.tokens differs from the real SimpleTokenizer's tokens for the value bytes %s" % vl[bad_v[0]][0])
     if bad_p:
         ck.broken.append("correspondence C20 tokenizer: TokModel.finder differs from the real SimpleTokenFinder on (phrase, value) = %s (real answer %s)" % (pl[bad_p[0]][0], pl[bad_p[0]][1]))
-    return {"values": len(vl), "pairs": len(pl), "pairs_matching": sum(1 for _, v in pl if v), "writer": writer,
+    return {"values": len(vl), "utf8_values": len(ul), "utf8_values_valid": sum(1 for t in bcases for v in (t.get("tok") or {}).get("vals", []) if v.get("valid") and not v.get("skip")),
+            "pairs": len(pl), "pairs_matching": sum(1 for _, v in pl if v), "writer": writer,
             "ascii_values": sum(1 for k, _ in vl if all(x < 128 for x in json.loads(k)))}
 
 
